@@ -35,6 +35,10 @@ def _is_integer(n) -> bool:
 
 
 def _is_swaplike(gate: cirq.Gate) -> bool:
+    if protocols.is_parameterized(gate):
+        # Not known to be swap-like while its exponent / angle is unresolved.
+        return False
+
     if isinstance(gate, ops.SwapPowGate):
         return gate.exponent == 1
 
